@@ -147,7 +147,7 @@ fn run(ctx: &mut Ctx) {
         }
     }
     let maxlen = if ctx.quick() { 3 } else { 4 };
-    ctx.bound("selection", format!("per kind 1..=10: all tag sequences of length <= {} over {{instance 1, instance 2, another kind, end}} + final end tag; all 11 x 11 ordered pairs with all 10 getters; information-request lists of length 0..={}", maxlen, if ctx.quick() { 8 } else { 24 }));
+    ctx.bound("selection", format!("per kind 1..=10: all tag sequences of length <= {} over {{instance 1, instance 2, another kind, end}} + final end tag; all 11 x 11 ordered pairs with all 10 getters; information-request lists of length 0..={} and headers whose tags lie on both sides of offsets 8192 and 32768 (2030..2043, 8182..8186, 16384 requests followed by three more tags)", maxlen, if ctx.quick() { 8 } else { 24 }));
     for kind in 1..=10u16 {
         let other = if kind == hd::FRAMEBUFFER { hd::ENTRY } else { hd::FRAMEBUFFER };
         let alphabet = [hd::sample(kind, 1, 2), hd::sample(kind, 2, 3), hd::sample(other, 3, 0), hd::end_tag()];
@@ -182,6 +182,17 @@ fn run(ctx: &mut Ctx) {
                 exec(ctx, &arena, &h, &getters, "pairs");
             });
         }
+    }
+    // long headers: tags on both sides of the offsets 8192 and 32768 the specification mentions
+    let big = Arena::new(20);
+    for n in [2030usize, 2038, 2039, 2040, 2041, 2042, 2043, 8182, 8183, 8184, 8185, 8186, 16384] {
+        let h = hd::header(4, &[hd::sample(hd::INFO_REQ, 3, n), hd::sample(hd::ENTRY, 1, 0), hd::sample(hd::FRAMEBUFFER, 2, 0), hd::sample(hd::RELOCATABLE, 3, 0), hd::end_tag()], 0xF7);
+        let describe = || J::obj().set("part", "long_header").set("requests", n).set("header_len", h.len());
+        ctx.leaf(describe, |ctx| {
+            ctx.state(hash::hash_bytes(&h));
+            ctx.nontrivial();
+            exec(ctx, &big, &h, &getters, "long_header");
+        });
     }
     for n in 0..=(if ctx.quick() { 8 } else { 24 }) {
         let h = hd::header(0, &[hd::sample(hd::INFO_REQ, 3, n), hd::end_tag()], 0);
